@@ -411,6 +411,14 @@ func c04Exec(c *Case, generate bool) (*Violation, *execStats) {
 		b := model.Clone(s.root).(ygot.GoStruct)
 		gen.New(&ra, c.TreeP).Mutate(reflect.ValueOf(a).Elem(), s.sch, 0, gen.EditParams{PDel: 0.3})
 		gen.New(&rb, c.TreeP).Mutate(reflect.ValueOf(b).Elem(), s.sch, 0, gen.EditParams{PDel: 0.3})
+		switch c.Seed % 16 {
+		case 3:
+			a = s.p.NewRoot() // an entirely unpopulated first input
+			st.Probes["merge_with_empty_input"]++
+		case 11:
+			b = s.p.NewRoot()
+			st.Probes["merge_with_empty_input"]++
+		}
 		var mopts []ygot.MergeOpt
 		switch c.Target {
 		case "merge-emptymaps":
